@@ -33,7 +33,7 @@ K = 50.0
 def _case(draw):
     name = draw(st.sampled_from(["IMTLG", "ConFIG", "AlignedMTL"]))
     dtype = draw(st.sampled_from(["float64", "float32"]))
-    if draw(st.integers(0, 9)) == 0:
+    if draw(st.sampled_from([True] + [False] * 9)):
         m, n = draw(st.integers(1, 8)), draw(st.integers(1, 10))
         pref = None
         if name != "IMTLG" and draw(st.booleans()):
